@@ -210,6 +210,9 @@ func (c *Coder) DecodeHeader(data []byte, h *MessageHeader) (int, error) {
 	if len(data) < int(tkl) {
 		return -1, message.ErrShortRead
 	}
+	if tkl > message.MaxTokenSize {
+		return -1, message.ErrInvalidTokenLen
+	}
 	if tkl > 0 {
 		h.Token = data[:tkl]
 	}
